@@ -33,10 +33,10 @@ CLAIMED = {
         '{2, 3, 61, 3037000493} that supply concrete counterexamples.  Unit row_echelon adds, for both echelon constructors (RowEchelonVecMatrix::new and its const-generic twin '
         'RowEchelonMatrix::new), for every shape and every Entry type meeting the trait contracts of pivot_row / clear_col: no index or assertion can fail, rank <= min(rows, columns), '
         'and the result is in ROW ECHELON FORM (pivot columns strictly increasing, every pivot non-zero with zeros to its left, every row from rank on zero); the real index / index_mut / swap_rows '
-        'bodies of both matrix types are proved (values, with frame); i64::pivot_row and PrimeResidueClass::{pivot_row, clear_col, zero, is_zero} are proved to meet the trait contracts.',
+        'bodies of both matrix types are proved (values, with frame); i64::pivot_row, PrimeResidueClass::{pivot_row, clear_col, zero, is_zero} and BigRational::{pivot_row, clear_col} (over a stand-in type without a value model) are proved to meet the trait contracts.',
    note='Trusted: Verus+Z3, vstd arithmetic lemmas, Kani/CBMC; domain assumption on the const generic P (2 <= P <= 3037000499, P prime = what valid() '
         'accepts); ASSUMED: <i64 as Entry>::clear_col meets the trait contract (its gcdx arithmetic overflows for large entries: machine arithmetic would have to be treated as mathematical), '
-        'the derived Clone of both matrix types returns the same entries, identity() for its shape; BigRational / f64 entries are not extracted; valid() (f64) and the p-adic solver are not under contract; '
+        'the derived Clone of both matrix types returns the same entries, identity() for its shape; BigRational arithmetic is a stand-in (total operators with arbitrary results, division needs a non-zero divisor, is-zero uninterpreted); f64 entries are not extracted; valid() (f64) and the p-adic solver are not under contract; '
         'the echelon contract does not say that the result is row-equivalent to the input, so the exact VALUE of rank/determinant/null space/solve is decided by the bounded stand-in only.',
    ref='5 C18', technique=TECH + '; Kani (CBMC) loop-free harnesses for instantiated moduli'),
  'C02': dict(
